@@ -63,6 +63,16 @@ func runC22(c *core.Check) {
 		return
 	}
 
+	adjacencyRule(c, prog)
+}
+
+// adjacencyRule (shared by C19 and C22): printer.mayCombine contains every entry of go/printer's table.
+func adjacencyRule(c *core.Check, prog *core.Prog) {
+	pk, gpk := prog.Pkg("./printer"), prog.Pkg("go/printer")
+	if pk == nil || gpk == nil {
+		c.Bad("anchor", "printer/go-printer", 0, "packages not loaded")
+		return
+	}
 	// ---------- adjacency table: mayCombine ⊇ go/printer's
 	mine := combineTable(pk, core.FindFuncDecl(pk, "mayCombine"))
 	ref := combineTable(gpk, core.FindFuncDecl(gpk, "mayCombine"))
